@@ -316,3 +316,374 @@ def extract(ctx):
     ]
     C.write_if_changed(GEN, "\n".join(out))
     return {"regex": pattern, "regex_at": f"consolidators.py:{sub_line}", "flag_class": flag_class, "type_class": type_class, "int_replacer_at": f"consolidators.py:{fn.lineno}", "int_replacer_lean": lines, "group_names": names}
+
+
+# ----------------------------------------------------------------------------- ground truth: libc printf, CPython format, re
+
+_libc = ctypes.CDLL(None)
+_libc.snprintf.restype = ctypes.c_int
+INT_MAX = 2**31 - 1
+
+
+def c_printf(fmt: str, i: int) -> str:
+    """libc's snprintf(fmt, (int)i) -- the ground truth for C printf."""
+    assert 0 <= i <= INT_MAX
+    need = _libc.snprintf(None, ctypes.c_size_t(0), fmt.encode("ascii"), ctypes.c_int(i))
+    if need < 0:
+        raise OverflowError("snprintf failed")
+    buf = ctypes.create_string_buffer(need + 1)
+    _libc.snprintf(buf, ctypes.c_size_t(need + 1), fmt.encode("ascii"), ctypes.c_int(i))
+    return buf.value.decode("ascii")
+
+
+_DESC = {"data_keys": {"k": {"shape": [1, 2, 3], "dtype": "array", "dtype_numpy": "<f8", "external": "STREAM:"}}, "uid": "d"}
+_URI = "file://localhost/data/"
+_EXT = {"tiff": ("multipart/related;type=image/tiff", ".tif"), "jpeg": ("multipart/related;type=image/jpeg", ".jpg")}
+
+
+def conv_of(case) -> str:
+    return "%" + case["flags"] + case["width"] + ("." + case["prec"] if case["prec"] is not None else "") + "d"
+
+
+def make_consolidator(case):
+    from bluesky.consolidators import consolidator_factory
+
+    mimetype, ext = _EXT[case.get("fmt", "tiff")]
+    lead = {"plain": "", "s1": "%s", "s2": "%s%s"}[case["mode"]]
+    template = lead + case["prefix"] + conv_of(case) + case["suffix"] + ext
+    params = {"chunk_shape": (1,), "template": template}
+    if case["mode"] != "plain":
+        params["filename"] = case["filename"]
+    sres = {"data_key": "k", "mimetype": mimetype, "uri": _URI, "parameters": params, "uid": "s"}
+    return consolidator_factory(sres, _DESC), ext
+
+
+def expected_literal(case):
+    """the literal text around the conversion after the %s substitution (independent of the code)"""
+    pre = (case["filename"] if case["mode"] != "plain" else "") + case["prefix"]
+    return pre, case["suffix"]
+
+
+def run_derive(case):
+    """Real code path: constructor (regex + int_replacer) then get_datum_uri(i) for every index."""
+    try:
+        cons, ext = make_consolidator(case)
+    except Exception as e:  # noqa: BLE001
+        return {"ctor": type(e).__name__}
+    pre, suf = expected_literal(case)
+    tm = cons.template
+    obs = {"ctor": "ok", "template": tm, "rewrite": None, "outs": []}
+    if tm.startswith(pre) and tm.endswith(suf + ext):
+        obs["rewrite"] = tm[len(pre) : len(tm) - len(suf + ext)]
+    for i in case["indices"]:
+        try:
+            u = cons.get_datum_uri(i)
+        except Exception as e:  # noqa: BLE001
+            obs["outs"].append({"err": type(e).__name__})
+            continue
+        head, tail = _URI + pre, suf + ext
+        mid = u[len(head) : len(u) - len(tail)] if (u.startswith(head) and u.endswith(tail) and len(u) >= len(head) + len(tail)) else None
+        obs["outs"].append({"uri": u, "mid": mid})
+    if case.get("consume"):
+        # the same names must reach the assets when stream datums are consumed
+        a, b = case["consume"]
+        try:
+            cons.consume_stream_datum({"indices": {"start": a, "stop": b}, "seq_nums": {"start": a + 1, "stop": b + 1}, "descriptor": "d", "stream_resource": "s", "uid": "x"})
+            obs["assets"] = [x.data_uri for x in cons.assets]
+        except Exception as e:  # noqa: BLE001
+            obs["assets"] = [type(e).__name__]
+    return obs
+
+
+def in_grammar(case) -> bool:
+    w, p = case["width"], case["prec"]
+    return p is None or int(p) >= int(w or 0)
+
+
+def sig_of(case, i) -> str:
+    if case["prec"] is not None and int(case["prec"]) == 0 and i == 0:
+        return "int_replacer:precision-0:index-0"
+    fl = "".join(sorted(set(case["flags"]))).replace(" ", "_")
+    return f"int_replacer:differs-from-printf:flags=[{fl}]:width={'yes' if case['width'] else 'no'}:precision={'yes' if case['prec'] is not None else 'no'}"
+
+
+def oracle_derive(case, obs):
+    """The property on the implementation's observation: derived name == uri + literal + printf(conv, i) + literal."""
+    bad = []
+    if not in_grammar(case):
+        return bad
+    conv = conv_of(case)
+    pre, suf = expected_literal(case)
+    ext = _EXT[case.get("fmt", "tiff")][1]
+    if obs["ctor"] != "ok":
+        return [("int_replacer:constructor-raises:" + obs["ctor"], f"template with conversion {conv!r}: constructor raised {obs['ctor']}")]
+    for i, o in zip(case["indices"], obs["outs"]):
+        want = _URI + pre + c_printf(conv, i) + suf + ext
+        got = o.get("uri", o.get("err"))
+        if got != want:
+            bad.append((sig_of(case, i), f"template {conv!r} (rewritten to {obs['template']!r}), index {i}: get_datum_uri gives {got!r}, printf gives {want!r}"))
+    if "assets" in obs:
+        a, b = case["consume"]
+        want = [_URI + pre + c_printf(conv, i) + suf + ext for i in range(a, b)]
+        if obs["assets"] != want:
+            i = next((a + k for k, (x, y) in enumerate(zip(obs["assets"], want)) if x != y), a)
+            bad.append((sig_of(case, i) if len(obs["assets"]) == len(want) else "int_replacer:asset-count", f"template {conv!r}: assets after consuming indices [{a},{b}) are {obs['assets'][:3]}..., printf gives {want[:3]}..."))
+    return bad
+
+
+# ----------------------------------------------------------------------------- case generation
+
+FLAG_STRINGS = ["", "-", "+", " ", "0", "#", "00", "-0", "0-", "+ ", " +", "+0", " 0", "-+", "- ", "-#", "#0", "-+0", "-+0# ", " 0+", "+-", "0+ -#", "##", "--"]
+SAFE = "abcXYZ019_-/"
+
+
+def _lit(rng, n):
+    return "".join(rng.choice(SAFE) for _ in range(n))
+
+
+def exhaustive_derive(big: bool):
+    widths = ["", "1", "2", "5", "10"] + (["3", "12", "20"] if big else [])
+    precs = [None, "0", "1", "2", "5", "10", "007"] + (["00", "3", "12", "21"] if big else [])
+    idx = [0, 1, 9, 10, 99, 100, 4242, 99999, 100000, 1234567890, INT_MAX] if big else [0, 7, 10, 42, 99999, INT_MAX]
+    flags = FLAG_STRINGS if big else FLAG_STRINGS[:14] + ["-+0# "]
+    for f, w, p in itertools.product(flags, widths, precs):
+        yield {"kind": "derive", "mode": "plain", "filename": "", "prefix": "img_", "suffix": "", "flags": f, "width": w, "prec": p, "indices": idx}
+
+
+def gen_derive(rng, flag_class):
+    nf = rng.choice([0, 0, 1, 1, 2, 3, 5])
+    flags = "".join(rng.choice(flag_class) for _ in range(nf))
+    r = rng.random()
+    wv = 0 if r < 0.3 else rng.randint(1, 12) if r < 0.8 else rng.randint(13, 60) if r < 0.97 else rng.randint(100, 3000)
+    width = str(wv) if wv else ""
+    r = rng.random()
+    if r < 0.4:
+        prec = None
+    else:
+        r2 = rng.random()
+        pv = wv if r2 < 0.25 else wv + rng.randint(0, 3) if r2 < 0.6 else rng.randint(0, 15) if r2 < 0.9 else rng.randint(0, 70)
+        prec = "0" * rng.choice([0, 0, 0, 1, 2]) + str(pv)
+    nd = rng.choice([1, 1, 2, 3, 5, 8, 10])
+    idx = sorted({0, rng.randint(0, 9), min(INT_MAX, rng.randint(10 ** (nd - 1), 10**nd)), min(INT_MAX, 10 ** rng.randint(0, 9))})
+    case = {"kind": "derive", "mode": rng.choice(["plain", "plain", "s1", "s2"]), "filename": _lit(rng, rng.randint(0, 5)), "prefix": _lit(rng, rng.randint(0, 4)), "suffix": _lit(rng, rng.randint(0, 3)).replace("/", "_"), "flags": flags, "width": width, "prec": prec, "indices": idx, "fmt": rng.choice(["tiff", "jpeg"])}
+    if rng.random() < 0.15:
+        a = rng.randint(0, 12)
+        case["consume"] = [a, a + rng.randint(0, 4)]
+    return case
+
+
+def gen_text(rng, alphabet, n):
+    return "".join(rng.choice(alphabet) for _ in range(n))
+
+
+def gen_match(rng, flag_class):
+    """strings for the regex model: mostly near-misses of the conversion grammar"""
+    r = rng.random()
+    if r < 0.5:
+        t = "%" + gen_text(rng, flag_class + "0", rng.randint(0, 3)) + gen_text(rng, "0123456789", rng.randint(0, 3)) + rng.choice(["", ".", ".", ".."]) + gen_text(rng, "0123456789", rng.randint(0, 3)) + rng.choice(["d", "d", "d", "i", "f", "ld", "", "s", "x"]) + gen_text(rng, "d5.%x_", rng.randint(0, 3))
+    else:
+        t = rng.choice(["%", "%", "x", ""]) + gen_text(rng, flag_class + "0123456789..ddd%x", rng.randint(0, 8))
+    return {"kind": "match", "t": t}
+
+
+PYFMT_ALPHABET = "<>=^+- #00123456789dd"
+
+
+def gen_pyfmt(rng):
+    r = rng.random()
+    if r < 0.7:
+        spec = rng.choice(["", "", "<", ">", "=", "^", "x<", "0<", "*^", " >", "+=", "<<", "0="]) + rng.choice(["", "", "+", "-", " "]) + rng.choice(["", "", "#"]) + rng.choice(["", "", "0", "00"]) + rng.choice(["", str(rng.randint(0, 30)), str(rng.randint(1, 9))]) + rng.choice(["d", "d", ""])
+    else:
+        spec = gen_text(rng, PYFMT_ALPHABET + ",_.xz", rng.randint(0, 6))
+    return {"kind": "pyfmt", "spec": spec, "i": rng.choice([0, 7, 42, rng.randint(0, 10**6), 10 ** rng.randint(0, 25)])}
+
+
+def gen_printf(rng):
+    flags = gen_text(rng, "-+ #0", rng.choice([0, 0, 1, 1, 2, 3, 6]))
+    width = rng.choice(["", "", str(rng.randint(1, 15)), str(rng.randint(1, 80))])
+    prec = rng.choice([None, None, "", "0", "00", str(rng.randint(0, 15)), "0" + str(rng.randint(0, 30)), str(rng.randint(0, 80))])
+    t = "%" + flags + width + ("." + prec if prec is not None else "") + rng.choice(["d", "d", "d", "i"])
+    return {"kind": "printf", "t": t, "i": rng.choice([0, 0, 3, 42, rng.randint(0, 10**5), rng.randint(0, INT_MAX), INT_MAX])}
+
+
+def _cases(ctx, facts):
+    flag_class = facts.get("flag_class") or "-+#0 "
+    corpus = C.VERIF / "corpus" / "C37"
+    if corpus.exists():
+        for f in sorted(corpus.glob("*.json")):
+            yield json.loads(f.read_text())["case"]
+    big = ctx.tier == "thorough" or ctx.deep
+    yield from exhaustive_derive(big)
+    for _ in range(ctx.budget(1500, 40000)):
+        yield gen_derive(ctx.rng, flag_class)
+    for _ in range(ctx.budget(600, 15000)):
+        yield gen_match(ctx.rng, flag_class)
+    for _ in range(ctx.budget(800, 20000)):
+        yield gen_pyfmt(ctx.rng)
+    for _ in range(ctx.budget(800, 20000)):
+        yield gen_printf(ctx.rng)
+
+
+# ----------------------------------------------------------------------------- observations of the other three ground truths
+
+OUTSIDE_PYFMT = set(",_.xzbcoXneEfFgG%")
+
+
+def run_pyfmt(case):
+    try:
+        return {"out": format(case["i"], case["spec"])}
+    except ValueError:
+        return {"out": None}
+
+
+def run_printf(case):
+    return {"out": c_printf(case["t"], case["i"])}
+
+
+def run_match(case, pattern):
+    m = re.match(pattern, case["t"])
+    if not m:
+        return {"groups": None}
+    return {"groups": list(m.groups()), "rest": case["t"][m.end() :]}
+
+
+def lean_lines(case):
+    """requests for the Lean driver for one case"""
+    if case["kind"] == "derive":
+        conv = conv_of(case)
+        return [json.dumps({"k": "derive", "t": conv, "i": i}) for i in case["indices"]] + ([json.dumps({"k": "printf", "t": conv, "i": i}) for i in case["indices"]] if True else [])
+    if case["kind"] == "match":
+        return [json.dumps({"k": "match", "t": case["t"]})]
+    if case["kind"] == "pyfmt":
+        return [json.dumps({"k": "pyfmt", "spec": case["spec"], "i": case["i"]})]
+    return [json.dumps({"k": "printf", "t": case["t"], "i": case["i"]})]
+
+
+def compare(case, obs, replies):
+    """model vs implementation / ground truth -> list of differences"""
+    diffs = []
+    if case["kind"] == "derive":
+        n = len(case["indices"])
+        conv = conv_of(case)
+        for k, i in enumerate(case["indices"]):
+            m = json.loads(replies[k])
+            mp = json.loads(replies[n + k])
+            if obs["ctor"] != "ok":
+                diffs.append({"what": "constructor raised", "impl": obs["ctor"]})
+                break
+            if m["rewrite"] != obs["rewrite"]:
+                diffs.append({"what": "rewritten template", "model": m["rewrite"], "impl": obs["rewrite"], "full_template": obs["template"]})
+            if m["out"] != obs["outs"][k].get("mid"):
+                diffs.append({"what": "derived text", "index": i, "model": m["out"], "impl": obs["outs"][k]})
+            want = c_printf(conv, i)
+            if mp["out"] != want:
+                diffs.append({"what": "printf model vs libc", "index": i, "model": mp["out"], "libc": want})
+        return diffs
+    m = json.loads(replies[0])
+    if case["kind"] == "pyfmt":
+        if m["out"] is None:
+            if obs["out"] is not None and not (set(case["spec"]) & OUTSIDE_PYFMT):
+                diffs.append({"what": "format() model rejects a spec of its own sub-language", "model": None, "python": obs["out"]})
+        elif m["out"] != obs["out"]:
+            diffs.append({"what": "format() model vs CPython", "model": m["out"], "python": obs["out"]})
+        return diffs
+    if m != obs:
+        diffs.append({"what": case["kind"] + " model vs ground truth", "model": m, "truth": obs})
+    return diffs
+
+
+def _nontrivial(case, obs):
+    if case["kind"] == "derive":
+        return bool(case["flags"] or case["width"] or case["prec"] is not None)
+    if case["kind"] == "match":
+        return obs["groups"] is not None
+    if case["kind"] == "pyfmt":
+        return obs["out"] is not None and len(case["spec"]) > 1
+    return len(case["t"]) > 2
+
+
+def _facts():
+    src = (C.SRC / "consolidators.py").read_text()
+    try:
+        pattern, _, _ = _find_int_replacer(ast.parse(src))
+        m = RE_SHAPE.match(pattern)
+        return {"regex": pattern, "flag_class": m.group(1) if m else None}
+    except Exception:  # noqa: BLE001
+        return {"regex": None, "flag_class": None}
+
+
+def run(ctx, model=True):
+    res = C.Result(
+        rule="cases = corpus + exhaustive flags x widths x precisions x indices (plain template) + random conversions with literal prefix/suffix, "
+        "%s substitution, tiff/jpeg, some through consume_stream_datum (real consolidator objects; oracle = libc snprintf) + random strings for the "
+        "regex model (vs re.match with the source's pattern) + random format specs (vs CPython format) + random C conversions (vs libc snprintf); "
+        "non-trivial = a conversion with flags/width/precision, a string the regex matches, a spec longer than one character"
+    )
+    facts = _facts()
+    pattern = facts["regex"] or r"%([-+#0 ]*)(\d+)?(?:\.(\d+))?([d])"
+    cases, obss, lines, spans = [], [], [], []
+    for case in _cases(ctx, facts):
+        kind = case["kind"]
+        obs = run_derive(case) if kind == "derive" else run_match(case, pattern) if kind == "match" else run_pyfmt(case) if kind == "pyfmt" else run_printf(case)
+        cases.append(case)
+        obss.append(obs)
+        res.seen(case, _nontrivial(case, obs))
+        res.count("kind:" + kind)
+        if kind == "derive":
+            res.count("derive:" + ("precision" if case["prec"] is not None else "no-precision") + (":in-grammar" if in_grammar(case) else ":precision<width"))
+            res.count("derive:evaluations", len(case["indices"]))
+            for sig, what in oracle_derive(case, obs):
+                v = dict(case)
+                res.violations.append(C.Violation(sig, what, v))
+        if model:
+            ls = lean_lines(case)
+            spans.append((len(lines), len(ls)))
+            lines += ls
+    if model:
+        replies = C.lean_batch(DRIVER, lines)
+        for case, obs, (a, n) in zip(cases, obss, spans):
+            for d in compare(case, obs, replies[a : a + n]):
+                res.disagreements.append({"case": case, **d})
+        picks = [next((k for k, c in enumerate(cases) if c["kind"] == "derive" and c["prec"] is not None and c["flags"]), 0), len(cases) // 3, len(cases) - 1]
+        for k in picks:
+            a, n = spans[k]
+            res.samples.append({"case": cases[k], "impl": obss[k], "model": [json.loads(r) for r in replies[a : a + n]]})
+    else:
+        res.samples.append({"case": cases[-1], "impl": obss[-1]})
+    # minimise: report each violated signature on its smallest case
+    best = {}
+    for v in res.violations:
+        key = v.sig
+        size = (len(conv_of(v.case)), len(json.dumps(v.case)))
+        if key not in best or size < best[key][0]:
+            best[key] = (size, v)
+    res.violations = [_shrink(v) for _, v in best.values()]
+    return res
+
+
+def _shrink(v):
+    """keep only the first failing index, drop the literal decoration if the failure persists"""
+    case = dict(v.case)
+    for cand in ({**case, "mode": "plain", "filename": "", "prefix": "", "suffix": "", "consume": None}, case):
+        cand = {k: x for k, x in cand.items() if x is not None or k == "prec"}
+        for i in cand["indices"]:
+            c1 = {**cand, "indices": [i]}
+            bad = oracle_derive(c1, run_derive(c1))
+            hit = [b for b in bad if b[0] == v.sig]
+            if hit:
+                return C.Violation(v.sig, hit[0][1], c1)
+    return v
+
+
+def run_impl_only(ctx):
+    return run(ctx, model=False)
+
+
+def replay(ctx, data):
+    res = C.Result()
+    case = data.get("case")
+    if not case or case.get("kind") != "derive":
+        return res
+    for sig, what in oracle_derive(case, run_derive(case)):
+        res.violations.append(C.Violation(sig, what, case))
+    return res
